@@ -215,11 +215,11 @@ func neutral(k *kindT) sval {
 type expClass int
 
 const (
-	expExact     expClass = iota // call must succeed and Go must see exactly want
-	expError                     // value not representable: the call must end in a catchable error
-	expRoundOrEr                 // inexact in the target float: IEEE rounding or an error are both accepted
-	expOpen                      // other script type: only "no crash"
-	expIfAccepted                // other script type with one numerically unambiguous image: error, or exactly want
+	expExact      expClass = iota // call must succeed and Go must see exactly want
+	expError                      // value not representable: the call must end in a catchable error
+	expRoundOrEr                  // inexact in the target float: IEEE rounding or an error are both accepted
+	expOpen                       // other script type: only "no crash"
+	expIfAccepted                 // other script type with one numerically unambiguous image: error, or exactly want
 )
 
 type paramExp struct {
